@@ -65,11 +65,14 @@ def expected_bytes(line, maxlen):
     outs.append(b + b"\n")
     # `x\r\r\n`: the line reader takes `\r\n` as the line ending and the CR that is then last is dropped as well;
     # both are CRs at the end of the line (CRLF normalisation), the statement does not say how many may go
-    if "\r" in s2:
-        j = s2.rfind("\r")
-        import term
-        if term.strip(s2[j + 1:]) == "":
-            outs.append((s2[:j] + s2[j + 1:]).encode("utf-8") + b"\n")
+    import term
+    s3 = s2
+    while "\r" in s3:
+        j = s3.rfind("\r")
+        if term.strip(s3[j + 1:]) != "":
+            break
+        s3 = s3[:j] + s3[j + 1:]
+        outs.append(s3.encode("utf-8") + b"\n")
     return outs, b, valid
 
 
